@@ -15,6 +15,7 @@ def run(rep, repo, tier):
     run_path(rep, repo)
     run_creader(rep, repo)
     run_stringcpp(rep, repo)
+    run_replacecpp(rep, repo)
 
 
 def run_memmem(rep, repo):
@@ -697,3 +698,22 @@ def run_stringcpp(rep, repo):
         raise AnalysisBroken('igris::trim not instantiated')
     run.run(c[0].name, FnSpec())
     rep.add_absint('R-TRIM', nice(modw, summarize(it, run)))
+
+
+def run_replacecpp(rep, repo):
+    mod = compile_ir(repo + '/igris/string/replace.cpp', repo)
+    rep.units.append('igris/string/replace.cpp')
+    sm = StdStringModel(mod)
+    if len(sm.found) < 3:
+        raise AnalysisBroken('igris::replace no longer uses data()/size()/append(ptr, n) of std::string')
+    op = std_opaque(mod)
+    ext = dict(LIBC_EXT)
+    ext.update({n: ext_std for n in op})
+    ext.update(sm.ext)
+    it = Interp(mod, externals=ext, opaque=op)
+    run = Run19(it, [])
+    c = [f for f in mod.defined() if f.scope.startswith('igris::') and f.srcname == 'replace']
+    if len(c) != 1:
+        raise AnalysisBroken('igris::replace not found')
+    run.run(c[0].name, FnSpec())
+    rep.add_absint('R-REPLACE', nice(mod, summarize(it, run)))
